@@ -291,7 +291,7 @@ class Vector():
 		# Preserve name if not explicitly overridden
 		# Use sentinel value (...) to distinguish between name=None (clear) and not passing name (preserve)
 		use_name = self._name if name is ... else name
-		return Vector(list(new_values or self._underlying),
+		return Vector(list(self._underlying if new_values is None else new_values),
 			dtype = self._dtype,
 			name = use_name,
 			as_row = self._display_as_row)
